@@ -1299,7 +1299,29 @@ class CSemantics:
         The common type is a type they can both be cast to.
         """
 
-        return max([typ1, typ2], key=lambda t: self._get_rank(t, location))
+        typ = max([typ1, typ2], key=lambda t: self._get_rank(t, location))
+        other = typ2 if typ is typ1 else typ1
+
+        # A signed type of higher rank which cannot represent all values of
+        # the unsigned operand type (long long versus unsigned long when
+        # both have the same size) gives its unsigned counterpart:
+        if (
+            isinstance(typ, types.BasicType)
+            and isinstance(other, types.BasicType)
+            and typ.is_integer
+            and other.is_integer
+            and typ.is_signed
+            and not other.is_signed
+            and self.context.sizeof(typ) == self.context.sizeof(other)
+        ):
+            unsigned_counterparts = {
+                types.BasicType.INT: types.BasicType.UINT,
+                types.BasicType.LONG: types.BasicType.ULONG,
+                types.BasicType.LONGLONG: types.BasicType.ULONGLONG,
+            }
+            if typ.type_id in unsigned_counterparts:
+                typ = types.BasicType(unsigned_counterparts[typ.type_id])
+        return typ
 
     basic_ranks = {
         types.BasicType.LONGDOUBLE: 110,
